@@ -275,14 +275,32 @@ package html
 //@   oncall NewIndividualEvents check cleared-at-construction: arg1 == c.individual && arg2 == c.options.LivingVisibility
 //@   oncall NewIndividualNameAndSex check same-individual: arg0 == c.individual
 //@   oncall NewIndividualAdditionalNames check same-individual: arg0 == c.individual
-// EventStatistics has no visibility parameter at all: it may only read the
-// events of individuals that are not living.
+// The counting components: in hide mode they may not read anything from a
+// living individual (the published site must not depend on them).
 //@ func EventStatistics.WriteHTMLTo
 //@   props C17
-//@   deepcall IndividualNode.* except IsLiving,Is,Document,Families,Spouses,Parents,Children,SpouseChildren,FamilyWithSpouse,FamilyWithUnknownSpouse,Pointer,Identifier,Tag,Nodes,Name,Names,String check data-cleared: arg0 == nil || !livingOf(arg0)
+//@   requires valid: c.visibility == LivingVisibilityShow || c.visibility == LivingVisibilityHide || c.visibility == LivingVisibilityPlaceholder
+//@   deepcall IndividualNode.* except IsLiving,Is,Document,Families,Spouses,Parents,Children,SpouseChildren,FamilyWithSpouse,FamilyWithUnknownSpouse,Pointer,Identifier,Tag,Nodes,Name,Names,String check data-cleared: arg0 == nil || !livingOf(arg0) || c.visibility != LivingVisibilityHide
 //@   opaque IndividualNode.*, NameNode.*, BirthNode.*, DeathNode.*, BaptismNode.*, BurialNode.*, DateNode.*, PlaceNode.*, SexNode.*
 //@   assigns alloc
 //@   trustframe
+//@ func SurnameInList.WriteHTMLTo
+//@   props C17
+//@   requires valid: c.visibility == LivingVisibilityShow || c.visibility == LivingVisibilityHide || c.visibility == LivingVisibilityPlaceholder
+//@   deepcall IndividualNode.Name check counted-only-when-visible: arg0 == nil || !livingOf(arg0) || c.visibility != LivingVisibilityHide
+//@   opaque IndividualNode.*, NameNode.*
+//@   assigns alloc
+//@   trustframe
+//@ func StatisticsPage.WriteHTMLTo
+//@   props C17
+//@   requires valid: c.options.LivingVisibility == LivingVisibilityShow || c.options.LivingVisibility == LivingVisibilityHide || c.options.LivingVisibility == LivingVisibilityPlaceholder
+//@   oncall NewEventStatistics check vis-passed: arg1 == c.options.LivingVisibility
+//@   oncall NewIndividualStatistics check vis-passed: arg1 == c.options.LivingVisibility
+//@ func SurnameListPage.WriteHTMLTo
+//@   props C17
+//@   requires valid: c.options.LivingVisibility == LivingVisibilityShow || c.options.LivingVisibility == LivingVisibilityHide || c.options.LivingVisibility == LivingVisibilityPlaceholder
+//@   oncall getSurnames check vis-passed: arg1 == c.options.LivingVisibility
+//@   oncall NewSurnameInList check vis-passed: arg2 == c.options.LivingVisibility
 // The -living flag: only the three documented values come out of the parser
 // (anything else panics), which is what every `requires valid` above relies on.
 //@ func NewLivingVisibility
